@@ -165,7 +165,7 @@ Qed.
 
 Lemma now_step cfg s e s' acts : step cfg s e = (s', acts) -> now s' = now s + ev_dt e.
 Proof.
-  intros H. destruct e as [src tid c r unk|src p d|src n d|relay from d|dt|relay|csrc|]; cbn [ev_dt]; rewrite ?Z.add_0_r.
+  intros H. destruct e as [src tid c r unk|src p d|src n d|relay from d|dt|relay|csrc| |]; cbn [ev_dt]; rewrite ?Z.add_0_r.
   - pose proof (req_locality cfg s src tid c r unk s' acts H) as L. 
     cbn [step] in H. destruct unk; [inversion H; reflexivity|].
     destruct r as [tr lt fam df rp ep rt mt|lt fam|peers|n p|]; try (inversion H; reflexivity);
@@ -180,6 +180,7 @@ Proof.
   - cbn [step] in H. unfold h_tick in H. destruct (tick_allocs _ _). inversion H; reflexivity.
   - cbn [step] in H. unfold h_relay_err in H. destruct (find_relay relay (allocs s)); inversion H; reflexivity.
   - cbn [step] in H. unfold h_ctl_close in H. destruct (find_alloc csrc (allocs s)); inversion H; reflexivity.
+  - cbn [step] in H. inversion H; reflexivity.
   - cbn [step] in H. inversion H; reflexivity.
 Qed.
 
@@ -249,7 +250,7 @@ Section C06.
     { intros exp1 H1. rewrite (filter_live _ _ H1 Hdl'). exact H1. }
     assert (Same : s' = s -> Permutation exp (dlmap (allocs s'))) by (intros ->; exact Hp).
     unfold c06_update. cbn [os_ev os_acts].
-    destruct e as [src tid c r unk|src p d|src n d|relay from d|dt|relay|csrc|].
+    destruct e as [src tid c r unk|src p d|src n d|relay from d|dt|relay|csrc| |].
     - destruct r as [tr lt fam df rp ep rt mt|lt fam|peers|n p|].
       + (* Allocate *)
         apply Fin. cbn [step] in Hs. cbn [ev_dt] in Hnow. rewrite Z.add_0_r in Hnow.
@@ -309,6 +310,7 @@ Section C06.
     - apply Fin. cbn [step] in Hs. inversion Hs; subst; clear Hs. cbn [allocs set_allocs dlmap map].
       rewrite deleted_clients_close_all, fold_adel_all; [constructor|].
       intros k Hk. rewrite <- dlmap_keys. eapply Permutation_in; [apply Permutation_map; exact Hp|exact Hk].
+    - apply Fin. cbn [step] in Hs. inversion Hs; subst. exact Hp.
   Qed.
 End C06.
 
@@ -332,7 +334,7 @@ Section C06b.
     | _ => true
     end = true.
   Proof.
-    intros Hinv Hp Hs. destruct e as [src tid c r unk|? ? ?|? ? ?|? ? ?|?|?|?|]; try reflexivity.
+    intros Hinv Hp Hs. destruct e as [src tid c r unk|? ? ?|? ? ?|? ? ?|?|?|?| |]; try reflexivity.
     destruct r as [tr lt fam df rp ep rt mt|lt fam|?|? ?|]; try reflexivity; cbn [step] in Hs.
     - destruct unk; [inversion Hs; subst; reflexivity|].
       destruct (authenticate cfg s c) as [uid|code ch] eqn:Ha; [|inversion Hs; subst; reflexivity].
